@@ -146,6 +146,21 @@ def t_edit_update(E):
     E.prove("C06.Vmap.edit_update.bwd_is_update_of_stacked_element_constraints", E.And(
         isinstance(bwd, Obj) and bwd.cls.name == "Update",
         forall_i(E, n, lambda i: E.eq(fld(E, bwd, "constraint").at(i), UVal(E.ctx.fn("update_bwd_constraint", U, U)(ed(T.edit_bwd, i)), "ChoiceMap")))))
+    # C06 round trip: the real edit on its own output with its own backward request and argdiffs leading back to the old args
+    back_ad = (diff(E, args[0], UnknownChange(E)), diff(E, args[1], UnknownChange(E)))
+    st2, back = E.attempt(lambda: E.method(vm, "edit", key(E, "key2"), new, bwd, back_ad))
+    E.require("C06.Vmap.edit_update.backward_request_can_be_applied", st2 == "ok")
+    new2, w2 = back[0], back[1]
+    E.prove("C06.Vmap.edit_update.bwd_restores_every_element", forall_i(E, n, lambda i: z3.And(
+        T.tr_choices(new2.fields["inner"].at(i).t) == T.tr_choices(inner.at(i).t),
+        T.tr_score(new2.fields["inner"].at(i).t) == T.tr_score(inner.at(i).t),
+        T.tr_retval(new2.fields["inner"].at(i).t) == T.tr_retval(inner.at(i).t))))
+    E.prove("C06.Vmap.edit_update.bwd_restores_the_arguments", E.eq(E.method(new2, "get_args"), args))
+    try:
+        E.I.sum_linear([(1, w2), (1, w)])
+    except Exception:
+        pass
+    E.prove("C06.Vmap.edit_update.bwd_weight_is_the_negated_weight", E.eq(w2, E.I.unaryop("USub", w)))
     E.refutable("vmap.edit_update", E.eq(w, 0.0))
 
 
@@ -196,6 +211,16 @@ def _edit_index(E, axis, sfx):
     E.prove("C06.Vmap.edit_index.bwd_is_index_request_of_element_bwd" + sfx, E.And(
         isinstance(bwd, Obj) and bwd.cls.name == "IndexRequest", E.eq(fld(E, bwd, "idx"), idx),
         E.I.to_u(fld(E, bwd, "request")) == ef(T.edit_bwd)))
+    # C06: the real edit executed a second time on its own output with its own backward request (arguments unchanged): element
+    # idx gets back its old view, every other element is untouched, the weight is negated (C06 for G: theory/gfi.py)
+    st2, back = E.attempt(lambda: E.method(vm, "edit", key(E, "key2"), new, bwd, ad))
+    E.require("C06.Vmap.edit_index.backward_request_can_be_applied" + sfx, st2 == "ok")
+    new2, w2 = back[0], back[1]
+    e_old, e_back = inner.at(idx.t), new2.fields["inner"].at(idx.t)
+    E.prove("C06.Vmap.edit_index.bwd_restores_the_edited_element_and_negates_the_weight" + sfx, E.And(
+        T.tr_choices(e_back.t) == T.tr_choices(e_old.t), T.tr_score(e_back.t) == T.tr_score(e_old.t),
+        T.tr_retval(e_back.t) == T.tr_retval(e_old.t), E.eq(w2, E.I.unaryop("USub", w)),
+        forall_i(E, n, lambda i: E.Implies(i != idx.t, E.eq(new2.fields["inner"].at(i), inner.at(i))))))
     # score' = score - s_idx + s'_idx   (sum over the updated batch, linear rule with the frame clause)
     old_s, new_s = E.method(old, "get_score"), E.method(new, "get_score")
     E.I.sum_point_update(new_s, old_s, idx.t)      # lemma instance (premise proved from the frame of .at[idx].set)
